@@ -222,6 +222,49 @@ class ExpectLoopExact(ExpectLoop):
         return out
 
 
+class ExpecterInit(Contract):
+    """Expecter.__init__: the look-back is the searcher's longest string (None for a searcher that has none); -1 means
+    the spawn's own search window."""
+    name = E + '.__init__'
+    props = ('C03',)
+    standin = False
+
+    def shape(self, b):
+        sp = b.obj('spawn', SPAWNBASE, sealed=False, searchwindowsize=b.opt('spawn.W', lambda: b.int('spawn.W')))
+        fields = dict(eof_index=b.int('eof_index'), timeout_index=b.int('timeout_index'))
+        if b.choice('searcher', ['exact', 'other']) == 'exact':
+            fields['longest_string'] = b.int('longest_string')
+        se = b.obj('searcher', 'iface:searcher', sealed=True, **fields)
+        me = b.obj('self', E, sealed=False)
+        c = b.choice('searchwindowsize', ['default', 'none', 'some'])
+        W = b.const(-1) if c == 'default' else (b.none() if c == 'none' else b.int('W'))
+        return dict(self=me, spawn=sp, searcher=se, searchwindowsize=W)
+
+    @staticmethod
+    def _is_default(w):
+        if isinstance(w, int):
+            return w == -1
+        if is_sym(w):
+            import z3
+            z = z3.simplify(w)
+            return z3.is_int_value(z) and z.as_long() == -1
+        return False
+
+    def requires(self, v):
+        w = v.a.searchwindowsize
+        return [] if (w is None or self._is_default(w)) else [('W-not-the-sentinel', Not(eq(w, -1)))]
+
+    def exits(self, v):
+        return ()
+
+    def ensures(self, v):
+        me, se, w = v.new.self, v.old.searcher, v.old.searchwindowsize
+        want_w = v.old.spawn.searchwindowsize if self._is_default(w) else w
+        return [('C03:lookback-is-the-longest-listed-string',
+                 eq(me.lookback, se.longest_string) if se.has('longest_string') else me.lookback is None),
+                ('C03:window-is-the-one-asked-for', same(me.searchwindowsize, want_w))]
+
+
 def register(reg):
-    for c in (DoSearchExact, ExistingDataExact, NewDataExact, ExpectLoopExact):
+    for c in (DoSearchExact, ExistingDataExact, NewDataExact, ExpectLoopExact, ExpecterInit):
         reg.add(c)
